@@ -156,6 +156,8 @@ def norm_real(v):
     (Exact rationals are not used: exponents may be astronomically large.)"""
     if v == 0 or v in ('inf', '-inf'):
         return v
+    if len(v) == 2 and v[0] == 'float':
+        return v
     m, b, e = v
     m, b, e = int(m), int(b), int(e)
     if m == 0:
